@@ -29,12 +29,12 @@ order by `process_data_payload` on an ordered channel whose stream expects that 
 exactly the payload (one event), leave the reassembly buffer empty and advance the SSN by one. -/
 theorem frag_reassemble (mps : Nat) (hmps : 0 < mps) (sid : UInt16) (ppid : UInt32) (ssn : UInt16)
     (m : Bytes) (pl : Pl) (dc : Chan) (t : UInt32)
-    (hfind : findChan pl.chans sid = some dc) (hord : dc.ordered = true)
+    (hfind : findChan pl.chans sid = some dc) (hord : dc.ordered = true) (hst : dc.state = 1)
     (hstr : getStream pl.streams sid = ⟨ssn, []⟩) :
     let pl' := plRun procDataP pl (assignTsn t ((fragMsg mps 0 m).map (fragChunk sid ppid ssn)))
     findChan pl'.chans sid = some { dc with reasm := [], events := dc.events ++ [ChanEv.msg m] } ∧
     getStream pl'.streams sid = ⟨ssn + 1, []⟩ := by
-  obtain ⟨pl', h1, h2, h3⟩ := msgRun mps hmps sid ppid ssn m pl dc t hfind hord hstr
+  obtain ⟨pl', h1, h2, h3⟩ := msgRun mps hmps sid ppid ssn m pl dc t hfind hord hst hstr
   subst h1
   exact ⟨h2, h3⟩
 
@@ -102,7 +102,7 @@ serial-number window.) -/
 theorem recv_prefix (cs : List TxChan) (sid : UInt16) (ppid : UInt32) (hp : ppid.toNat ≠ dcPpidDcep)
     (tc : TxChan) (hf : findTx cs sid = some tc) (ho : tc.ordered = true) (hmp : 0 < tc.maxPayload)
     (msgs : List Bytes) (tsn0 : UInt32)
-    (s0 : Rx) (dc : Chan) (hfind : findChan s0.pl.chans sid = some dc) (hord : dc.ordered = true)
+    (s0 : Rx) (dc : Chan) (hfind : findChan s0.pl.chans sid = some dc) (hord : dc.ordered = true) (hst : dc.state = 1)
     (hstr : getStream s0.pl.streams sid = ⟨tc.nextSsn, []⟩)
     (hcum : s0.cum = tsn0 - 1) (hrq : s0.rq = [])
     (hlen : (wire cs sid ppid msgs tsn0).length < 2147483648)
@@ -110,7 +110,7 @@ theorem recv_prefix (cs : List TxChan) (sid : UInt16) (ppid : UInt32) (hp : ppid
     ∃ dc' j, findChan (recvAll _ s0 arr).pl.chans sid = some dc' ∧ j ≤ msgs.length ∧
       dc'.events = dc.events ++ (msgs.take j).map ChanEv.msg := by
   obtain ⟨k, _, hpl, _, _⟩ := tsn_layer cs sid ppid hp msgs tsn0 s0 hcum hrq hlen arr
-  obtain ⟨dcF, hF, hFe⟩ := sendAll_run sid ppid hp msgs cs tc s0.pl dc tsn0 hf ho hmp hfind hord hstr
+  obtain ⟨dcF, hF, hFe⟩ := sendAll_run sid ppid hp msgs cs tc s0.pl dc tsn0 hf ho hmp hfind hord hst hstr
   obtain ⟨dck, hk1, hk2⟩ := plRun_mono ((wire cs sid ppid msgs tsn0).take k) s0.pl sid dc hfind
   have hsplit : plRun procDataP s0.pl (wire cs sid ppid msgs tsn0) =
       plRun procDataP (plRun procDataP s0.pl ((wire cs sid ppid msgs tsn0).take k))
@@ -132,7 +132,7 @@ duplication), everything submitted has been delivered, in order, exactly once. -
 theorem recv_complete (cs : List TxChan) (sid : UInt16) (ppid : UInt32) (hp : ppid.toNat ≠ dcPpidDcep)
     (tc : TxChan) (hf : findTx cs sid = some tc) (ho : tc.ordered = true) (hmp : 0 < tc.maxPayload)
     (msgs : List Bytes) (tsn0 : UInt32)
-    (s0 : Rx) (dc : Chan) (hfind : findChan s0.pl.chans sid = some dc) (hord : dc.ordered = true)
+    (s0 : Rx) (dc : Chan) (hfind : findChan s0.pl.chans sid = some dc) (hord : dc.ordered = true) (hst : dc.state = 1)
     (hstr : getStream s0.pl.streams sid = ⟨tc.nextSsn, []⟩)
     (hcum : s0.cum = tsn0 - 1) (hrq : s0.rq = [])
     (hlen : (wire cs sid ppid msgs tsn0).length < 2147483648)
@@ -141,7 +141,7 @@ theorem recv_complete (cs : List TxChan) (sid : UInt16) (ppid : UInt32) (hp : pp
     ∃ dc', findChan (recvAll _ s0 arr).pl.chans sid = some dc' ∧
       dc'.events = dc.events ++ msgs.map ChanEv.msg := by
   obtain ⟨k, _, hpl, _, hk⟩ := tsn_layer cs sid ppid hp msgs tsn0 s0 hcum hrq hlen arr
-  obtain ⟨dcF, hF, hFe⟩ := sendAll_run sid ppid hp msgs cs tc s0.pl dc tsn0 hf ho hmp hfind hord hstr
+  obtain ⟨dcF, hF, hFe⟩ := sendAll_run sid ppid hp msgs cs tc s0.pl dc tsn0 hf ho hmp hfind hord hst hstr
   refine ⟨dcF, ?_, hFe⟩
   rw [hpl, hk hall, List.take_length]
   exact hF
@@ -162,13 +162,13 @@ theorem cum_is_processed_prefix (cs : List TxChan) (sid : UInt16) (ppid : UInt32
 /-! ### non-vacuity: a concrete workload across the TSN wrap, with loss, duplication, reordering -/
 
 def exTx : List TxChan := [{ id := 1, ordered := true, maxPayload := 2 }]
-def exRx : Rx := { cum := 0xFFFFFFFD, pl := { chans := [{ id := 1, ordered := true }] } }
+def exRx : Rx := { cum := 0xFFFFFFFD, pl := { chans := [{ id := 1, ordered := true, state := 1 }] } }
 def exMsgs : List Bytes := [[1, 2, 3], [], [4]]
 
 example : (wire exTx 1 53 exMsgs 0xFFFFFFFE).map (·.tsn) = [0xFFFFFFFE, 0xFFFFFFFF, 0, 1] := by decide
 
 example : findTx exTx 1 = some { id := 1, ordered := true, maxPayload := 2 } ∧
-    findChan exRx.pl.chans 1 = some { id := 1, ordered := true } ∧
+    findChan exRx.pl.chans 1 = some { id := 1, ordered := true, state := 1 } ∧
     getStream exRx.pl.streams 1 = ⟨0, []⟩ ∧ exRx.cum = (0xFFFFFFFE : UInt32) - 1 ∧ exRx.rq = [] := by decide
 
 /-- chunks arrive as 2,2,0,3,1 : everything is delivered once, in order -/
